@@ -20,6 +20,11 @@ CONSTANTS
   EmptyDiff = {2}
   RootCheckedOnEmptyDiff = FALSE
   VerdictPerAnswer = TRUE
+  ClassA = {}
+  ClassB = {}
+  SierraSet = {}
+  RememberKnown = FALSE
+  Windows = FALSE
 INIT Init
 NEXT Next
 INVARIANTS TypeOK LocalIsSourceBlocks ReorgExact StoredOnlyVerified
